@@ -22,7 +22,15 @@ U32 = 2.0 ** -24
 
 
 def correspondence(ctx):
-    gen = torch.Generator().manual_seed(ctx.seed * 19001 + 19)
+    """thorough tier: several independent generator seeds (the quick tier runs one)"""
+    for rep in range(1 if ctx.quick() else 6):
+        _correspondence_once(ctx, rep)
+        if ctx.elapsed() > 1500:
+            break
+
+
+def _correspondence_once(ctx, rep=0):
+    gen = torch.Generator().manual_seed(ctx.seed * 19001 + 19 + 104729 * rep)
     E = R.entries('quick' if ctx.quick() else 'full')
     jobs = []
     pairs = []
